@@ -843,6 +843,88 @@ Proof.
   destruct (abs a =? infinity)%float; [discriminate | reflexivity].
 Qed.
 
+(* ---------------------------------------------- exact subtraction on the grid of v *)
+(* v - c is a float when c is a multiple of the unit in the last place of v and |v - c| <= |v| *)
+Lemma fmt_sub_grid v c : fmt v -> v <> 0 ->
+  (exists k : Z, c = IZR k * bpow radix2 (cexp radix2 fexp64 v)) ->
+  Rabs (v - c) <= Rabs v -> fmt (v - c).
+Proof.
+  intros Fv Hv0 (k & Hc) Hle. set (e := cexp radix2 fexp64 v) in *.
+  set (M := Ztrunc (scaled_mantissa radix2 fexp64 v)).
+  assert (v = IZR M * bpow radix2 e) as HvM by (exact Fv).
+  assert (v - c = F2R (Float radix2 (M - k) e)) as E.
+  { unfold F2R. simpl. rewrite minus_IZR, Hc, Rmult_minus_distr_r, <- HvM. reflexivity. }
+  rewrite E. apply generic_format_F2R. intro Hnz. rewrite <- E.
+  unfold e, cexp. apply fexp64_mono. apply mag_le_abs; [| exact Hle].
+  rewrite E. apply F2R_neq_0. exact Hnz.
+Qed.
+
+Lemma RV_half : RV 0.5%float = / 2.
+Proof. rewrite RV_SF. vm_compute Prim2SF. unfold SF2R, F2R. simpl. lra. Qed.
+Lemma fin_half : fin 0.5%float.
+Proof. apply fin_prim. reflexivity. Qed.
+
+(* floor(fl(j - 0.5)) = floor(j - 1/2) for every float 0 <= j < 2^52: the subtraction is exact from
+   1/4 on, and below 1/4 both sides are -1 *)
+Lemma floor_sub_half j : fin j -> 0 <= RV j < 4503599627370496 ->
+  fin (j - 0.5) /\ Zfloor (RV (j - 0.5)) = Zfloor (RV j - / 2) /\ Rabs (RV (j - 0.5)) <= 4503599627370496.
+Proof.
+  intros Fj Hj.
+  assert (Rabs (RV j - / 2) <= 4503599627370496) as Hab by (apply Rabs_le; lra).
+  destruct (Rlt_dec (RV j) (/ 4)) as [Hs | Hb].
+  - (* small j: -1/2 <= fl(j - 1/2) <= -1/4 *)
+    assert (RN (- / 2) = - / 2) as E1.
+    { apply round_generic; [apply valid_rnd_N|]. apply generic_format_opp. rewrite <- RV_half. apply fmt_RV. }
+    assert (RN (- / 4) = - / 4) as E2.
+    { apply round_generic; [apply valid_rnd_N|]. apply generic_format_opp.
+      change (/ 4) with (bpow radix2 (-2)). apply generic_format_bpow. vm_compute. discriminate. }
+    assert (- / 2 <= RN (RV j - / 2) <= - / 4) as Hr.
+    { split; [rewrite <- E1 | rewrite <- E2]; apply RN_le; lra. }
+    destruct (sub_R j 0.5 Fj fin_half) as [A B].
+    { rewrite RV_half. apply small_lt_emax. apply Rabs_le. lra. }
+    rewrite RV_half in A. split; [exact B|]. rewrite A. split.
+    + rewrite (Zfloor_imp (-1)) by (simpl; lra). symmetry. apply Zfloor_imp. simpl. lra.
+    + apply Rabs_le. lra.
+  - assert (fmt (RV j - / 2)) as Ff.
+    { apply fmt_sub_grid; [apply fmt_RV | lra | | apply Rabs_le; rewrite Rabs_pos_eq by lra; lra].
+      unfold cexp. set (mg := mag radix2 (RV j) : Z).
+      assert (-1 <= mg <= 52)%Z as Hmg.
+      { unfold mg. split.
+        - apply mag_ge_bpow. rewrite Rabs_pos_eq by lra. change (bpow radix2 (-1 - 1)) with (/ 4). lra.
+        - apply mag_le_bpow; [lra|]. rewrite Rabs_pos_eq by lra. change (bpow radix2 52) with 4503599627370496. lra. }
+      assert (fexp64 mg = mg - 53)%Z as -> by (unfold SpecFloat.fexp, SpecFloat.emin; change prec with 53%Z; change emax with 1024%Z; lia).
+      exists (2 ^ (-1 - (mg - 53)))%Z. change 2%Z with (radix2 : Z). rewrite IZR_Zpower by lia.
+      rewrite <- bpow_plus. replace (-1 - (mg - 53) + (mg - 53))%Z with (-1)%Z by lia. reflexivity. }
+    destruct (sub_R j 0.5 Fj fin_half) as [A B].
+    { rewrite RV_half, round_generic by (try apply valid_rnd_N; exact Ff). apply small_lt_emax. lra. }
+    rewrite RV_half, round_generic in A by (try apply valid_rnd_N; exact Ff).
+    split; [exact B|]. rewrite A. split; [reflexivity | exact Hab].
+Qed.
+
+(* Python's float % y for a >= 0 and y > 0: exact remainder a - floor(a/y) y in [0, y) *)
+Lemma fmod_py_pos a y : fin a -> fin y -> 0 <= RV a -> 0 < RV y ->
+  exists f, fmod_py B0 a y = VFloat f /\ fin f /\
+            RV f = RV a - IZR (Zfloor (RV a / RV y)) * RV y /\ 0 <= RV f < RV y.
+Proof.
+  intros Fa Fy Ha Hy. destruct (b64_fmod_correct a y Fa Fy ltac:(lra)) as [Hm Fm].
+  assert (0 <= RV a / RV y) as Hq by (apply Rmult_le_pos; [lra | left; apply Rinv_0_lt_compat; lra]).
+  assert (Ztrunc (RV a / RV y) = Zfloor (RV a / RV y)) as Ht by (unfold Ztrunc; rewrite Rlt_bool_false by exact Hq; reflexivity).
+  rewrite Ht in Hm.
+  pose proof (Zfloor_lb (RV a / RV y)) as Hl. pose proof (Zfloor_ub (RV a / RV y)) as Hu.
+  assert (RV a = RV a / RV y * RV y) as Eq by (field; lra).
+  assert (0 <= RV a - IZR (Zfloor (RV a / RV y)) * RV y < RV y) as Hr by (split; nra).
+  unfold fmod_py. cbn [f_eqb f_fmod f_signbit f_neg f_ltb f_add B0 B64ops B64opsC f0 f_of_Z].
+  change (b64_of_Z 0) with 0%float.
+  rewrite (eqb_R y 0 Fy fin_zero), RV_zero, Req_bool_false by lra.
+  set (m := b64_fmod a y) in *.
+  rewrite (eqb_R m 0 Fm fin_zero), RV_zero.
+  destruct (Req_bool_spec (RV m) 0) as [Z | NZ].
+  - rewrite (sign_pos y Hy). exists 0%float. rewrite RV_zero.
+    split; [reflexivity|]. split; [exact fin_zero|]. rewrite <- Hm, Z. split; [reflexivity | lra].
+  - rewrite (ltb_R m 0 Fm fin_zero), (ltb_R y 0 Fy fin_zero), RV_zero, !Rlt_bool_false by lra.
+    cbn [Bool.eqb]. exists m. split; [reflexivity|]. split; [exact Fm|]. split; [exact Hm | lra].
+Qed.
+
 (* ------------------------------------------------------------- assumptions *)
 (* stdlib reals (ClassicalDedekindReals, functional extensionality), classic, and the
    FloatAxioms / Uint63 specification axioms of the primitive types that Flocq's bridge uses *)
